@@ -156,7 +156,7 @@ theorem level_good (hS : schemaOK S = true) (hfrag : FragHyp S ft env frag)
             cases this
           | spread g =>
             simp only [selOK, Bool.and_eq_true, ho, Bool.not_true, Bool.false_or] at hsel
-            have := hsel.2
+            have := hsel.1.2
             rw [← hp.1, hk] at this
             cases this
       have hsome := htn hnobj ⟨s, hs, (fragPair_key hp).2⟩
